@@ -195,6 +195,42 @@ impl Prop for PrintParse {
 
 // ------------------------------------------------------ text→parse→print→parse
 
+fn lexeme_ok(piece: &str) -> bool {
+    piece.is_empty() || syn::parse_str::<syn::Ident>(piece).is_ok()
+}
+fn type_name_printable(name: &str) -> bool {
+    name.split(|c| c == '<' || c == '>').all(lexeme_ok)
+}
+fn ty_printable(t: &Ty) -> bool {
+    match t {
+        Ty::Named(n) => type_name_printable(n),
+        Ty::CPtr(t) | Ty::MPtr(t) | Ty::Arr(t, _) => ty_printable(t),
+        Ty::Unk(_) => true,
+    }
+}
+fn names_printable(m: &GMod) -> bool {
+    let func_ok = |f: &GFunc| {
+        f.args.iter().all(|a| match a {
+            GArg::Named(_, t) => ty_printable(t),
+            _ => true,
+        }) && f.ret.as_ref().map(ty_printable).unwrap_or(true)
+    };
+    m.items.iter().all(|it| match it {
+        GItem::Use(p) => p.iter().all(|s| type_name_printable(s)),
+        GItem::ExternType(n, _) => type_name_printable(n),
+        GItem::ExternValue { ty, .. } => ty_printable(ty),
+        GItem::Def { body, .. } => match body {
+            GDef::Type(stmts, _) => stmts.iter().all(|s| match &s.field {
+                GField::Field(_, _, t) => ty_printable(t),
+                GField::Vftable(fs) => fs.iter().all(func_ok),
+            }),
+            GDef::Enum(t, _) => ty_printable(t),
+        },
+        GItem::Impl { funcs, .. } => funcs.iter().all(func_ok),
+        GItem::Backend { .. } => true,
+    })
+}
+
 #[derive(Clone, Serialize, Deserialize)]
 pub struct TextCase {
     pub text: String,
@@ -285,6 +321,11 @@ impl Prop for ParsePrintParse {
             }
             Ok(Ok(m)) => {
                 let gm = from_grammar(&m);
+                if !names_printable(&gm) {
+                    // the "generics hack" glues juxtaposed identifiers (`A r#b`) into one name that is
+                    // not a lexeme; such an AST has no concrete syntax, so the relation is not defined on it
+                    return Outcome::discard("ast-name-is-not-a-lexeme (juxtaposed identifiers glued by the generics hack)");
+                }
                 let canon = print_gmod(&gm, Style::canonical());
                 let nontrivial = !gm.items.is_empty();
                 match parse(&canon) {
